@@ -40,6 +40,25 @@
          neighbouring quarter steps (nothing forged), and a ZIP64 member at a single-size limit of 2**53+1 -1/0/+1.
          Oracle: rejected <=> reference on the real infolist under those limits (clause "limits"); validate_zip_bytesio
          keeps the position (clause "position").
+(f) member NAME spellings: "directory entries are ignored" - and ONLY those. What the ZIP reader will hand out as a directory
+    is decided by the member's EFFECTIVE name (zipfile: stored bytes decoded as CP437 / UTF-8 by flag bit 11, replaced by a
+    matching Info-ZIP unicode-path extra field 0x7075, cut at the first NUL; directory <=> that name ends in "/"), not by the
+    name as stored, the MS-DOS directory bit or the unix mode. NAME_SPELLINGS (23 symbols) spans those axes: plain file / dir,
+    backslash, NUL followed by "/" / nothing / a tail, "dir/" followed by NUL + file name, "/" alone, empty name, CP437 and
+    UTF-8 names, unicode-path extra turning a file name into a dir name and back (valid and stale CRC), directory attribute
+    bits on a file name and file attributes on a dir name. Every spelling carries its expected kind in the table; the check
+    aborts (harness error) if the running zipfile disagrees with the table.
+    (f1) in-memory: REAL zipfile.ZipInfo objects (zipfile parses a reference-written ZIP with one member per spelling; sizes
+         are then set on copies) - every vector of <= 2 entries over spellings x NAME_SIZES (7 (file_size, compress_size)
+         symbols around the lattice thresholds) x the 32 limit settings of (a); thorough: 10 size symbols, + every vector of
+         3 entries over 8 spellings x 4 sizes. Exact-rational reference, clause "predicate".
+    (f2) real containers through the 9 extractors under the default limits: one extra member per spelling x profile
+         {benign, honest 1 MiB of zeros (ratio ~1000), forged zero compressed size, forged single size 1 GiB + 1; thorough:
+         + forged entry ratio 500 -1/0/+1 byte}; and the document's OWN members all re-stored under an alias spelling of the
+         same effective name (suffix NUL+"/", NUL, NUL+"x/") with and without an honest high-ratio member. Oracle as in (b)
+         (clause "container"), stream position (clause "position").
+    (f3) helper level: the aliased documents through open_zipfile / validate_zip_bytesio with the limit on the quarter steps
+         around the document's own largest entry ratio / total ratio (nothing forged; clause "limits").
 """
 from __future__ import annotations
 
@@ -49,7 +68,9 @@ import itertools
 import math
 import os
 import random
+import struct
 import zipfile
+import zlib
 from fractions import Fraction
 
 from verif.mc import pool as P
@@ -284,7 +305,13 @@ def container_part(arg):
     fails = []
     outs = {}
     samples = []
-    for label, data in forged_variants(fmt, tier, only):
+    if only is not None and only.split(":")[0] in ("name", "alias"):
+        variants = name_variants(fmt, tier, only)
+    elif only is not None:
+        variants = forged_variants(fmt, tier, only)
+    else:
+        variants = itertools.chain(forged_variants(fmt, tier, only), name_variants(fmt, tier))
+    for label, data in variants:
         if only is not None and label != only:
             continue
         with zipfile.ZipFile(io.BytesIO(data)) as z:
@@ -292,7 +319,10 @@ def container_part(arg):
         exp = ref_is_bomb(ents, DEFAULTS)
         got = _extract(fmt, data)
         ev += 1
-        outs[f"{label}:{got}"] = outs.get(f"{label}:{got}", 0) + 1
+        okey = f"{label}:{got}"
+        if label.startswith("name:"):
+            okey = f"name:{NAME_KIND[label.split(':')[1]]}:{label.split(':')[2]}:{got}"
+        outs[okey] = outs.get(okey, 0) + 1
         if (got == "bomb") != exp:
             fails.append(("container", fmt, {"variant": label}, f"{fmt} {label}: extractor outcome {got}, reference bomb={exp}"))
         if got.startswith("escape"):
@@ -845,6 +875,15 @@ def limit_zip_variants(base):
         for tag, L in zip(("below", "above"), _quarter_bracket(u0, c0)):
             if L is not None:
                 out.append((f"own-total:{tag}", data, dict(lim0, max_total_compression_ratio=L)))
+        # (f3) the same document, every member stored under an alias spelling of its name
+        for stag, sfx in ALIAS_SUFFIXES.items():
+            adata = zipforge.zipforge(_aliased(list(members), sfx))
+            for tag, L in zip(("below", "above"), _quarter_bracket(num, den)):
+                if L is not None:
+                    out.append((f"alias-entry:{stag}:{tag}", adata, dict(lim0, max_entry_compression_ratio=L)))
+            for tag, L in zip(("below", "above"), _quarter_bracket(u0, c0)):
+                if L is not None:
+                    out.append((f"alias-total:{stag}:{tag}", adata, dict(lim0, max_total_compression_ratio=L)))
     if base in ("bare", "docx", "ods", "epub"):
         for d in (-1, 0, 1):
             fs = B53 + 1 + d
@@ -912,6 +951,170 @@ def limits_zip_part(arg):
     return {"ev": ev, "fails": fails, "outs": outs, "samples": [{"limits_zip_base": base, "variants": n_var}]}
 
 
+# ------------------------------------------------------------------ (f) member NAME spellings: which entries are directories
+
+def _upath(stored, uname, valid=True):
+    """Info-ZIP unicode path extra field (0x7075): version 1, CRC-32 of the stored name, UTF-8 name."""
+    u = uname.encode("utf-8")
+    crc = (zlib.crc32(stored) ^ (0 if valid else 1)) & 0xFFFFFFFF
+    return struct.pack("<HHBL", 0x7075, 5 + len(u), 1, crc) + u
+
+
+_UNIX_DIR = (0o40755 << 16) | 0x10
+_UNIX_FILE = 0o100644 << 16
+# (tag, expected kind of the entry the ZIP reader hands out, zipforge member fields)
+NAME_SPELLINGS = [
+    ("file", "file", {"name_bytes": b"extra/pad.bin"}),
+    ("dir", "dir", {"name_bytes": b"extra/d/", "external_attr": _UNIX_DIR}),
+    ("backslash", "file", {"name_bytes": b"extra\\d\\"}),
+    ("nul-slash", "file", {"name_bytes": b"extra/pad.bin\0/"}),
+    ("nul", "file", {"name_bytes": b"extra/pad.bin\0"}),
+    ("nul-tail-slash", "file", {"name_bytes": b"extra/pad.bin\0tail/"}),
+    ("dir-nul-file", "dir", {"name_bytes": b"extra/d/\0pad.bin"}),
+    ("dir-nul", "dir", {"name_bytes": b"extra/d/\0"}),
+    ("slash-only", "dir", {"name_bytes": b"/"}),
+    ("empty", "file", {"name_bytes": b""}),
+    ("nul-first", "file", {"name_bytes": b"\0/"}),
+    ("cp437-file", "file", {"name_bytes": b"extra/p\x84d.bin"}),
+    ("cp437-dir", "dir", {"name_bytes": b"extra/d\x84/"}),
+    ("utf8-file", "file", {"name_bytes": "extra/päd.bin".encode("utf-8"), "flag_bits": 0x800}),
+    ("utf8-dir", "dir", {"name_bytes": "extra/dä/".encode("utf-8"), "flag_bits": 0x800}),
+    ("utf8-nul-slash", "file", {"name_bytes": "extra/päd.bin\0/".encode("utf-8"), "flag_bits": 0x800}),
+    ("upath-dir-on-file", "dir", {"name_bytes": b"extra/pad.bin", "extra": _upath(b"extra/pad.bin", "extra/d/")}),
+    ("upath-file-on-dir", "file", {"name_bytes": b"extra/d/", "extra": _upath(b"extra/d/", "extra/pad.bin")}),
+    ("upath-stale", "file", {"name_bytes": b"extra/pad.bin", "extra": _upath(b"extra/pad.bin", "extra/d/", valid=False)}),
+    ("upath-nul-slash", "file", {"name_bytes": b"extra/q.bin", "extra": _upath(b"extra/q.bin", "extra/pad.bin\0/")}),
+    ("dosdir-attr-file", "file", {"name_bytes": b"extra/pad.bin", "external_attr": 0x10}),
+    ("unixdir-attr-file", "file", {"name_bytes": b"extra/pad.bin", "external_attr": _UNIX_DIR}),
+    ("fileattr-dir", "dir", {"name_bytes": b"extra/d/", "external_attr": _UNIX_FILE}),
+]
+NAME_TAGS = [t for t, k, m in NAME_SPELLINGS]
+NAME_KIND = {t: k for t, k, m in NAME_SPELLINGS}
+NAME_FIELDS = {t: m for t, k, m in NAME_SPELLINGS}
+# (file_size, compress_size) around the thresholds of LIMIT_LATTICE: single 6/7, total 10/11, entry ratio 3/4, total ratio 2/3
+NAME_SIZES = {"quick": [(0, 0), (1, 1), (5, 2), (6, 3), (7, 3), (8, 2), (5, 0)],
+              "thorough": [(0, 0), (1, 1), (5, 2), (6, 3), (7, 3), (8, 2), (5, 0), (3, 1), (10, 5), (12, 6)]}
+NAME_TAGS_3 = ["file", "dir", "nul-slash", "dir-nul-file", "upath-dir-on-file", "upath-file-on-dir", "empty", "unixdir-attr-file"]
+NAME_SIZES_3 = [(1, 1), (6, 3), (8, 2), (5, 0)]
+_NAME_INFOS = {}
+
+
+def name_infos():
+    """tag -> the real zipfile.ZipInfo the ZIP reader produces for that spelling (memoised; sizes are set on copies)."""
+    if not _NAME_INFOS:
+        from verif.gen import zipforge
+        data = zipforge.zipforge([dict(m, data=b"x" * 8, method=0) for t, k, m in NAME_SPELLINGS])
+        with zipfile.ZipFile(io.BytesIO(data)) as z:
+            infos = z.infolist()
+        if len(infos) != len(NAME_SPELLINGS):
+            raise RuntimeError("zipfile did not list one entry per name spelling")
+        for (t, k, m), i in zip(NAME_SPELLINGS, infos):
+            if i.is_dir() != (k == "dir"):
+                raise RuntimeError(f"name spelling {t!r}: table says {k}, zipfile says is_dir={i.is_dir()} "
+                                   f"(stored {i.orig_filename!r}, effective {i.filename!r})")
+            _NAME_INFOS[t] = i
+    return _NAME_INFOS
+
+
+def _named_infos(vec):
+    import copy
+    src = name_infos()
+    out = []
+    for t, fs, cs in vec:
+        i = copy.copy(src[t])
+        i.file_size, i.compress_size = fs, cs
+        out.append(i)
+    return out
+
+
+def run_named(vec, lim, infos=None):
+    """vec: [(spelling tag, file_size, compress_size)] -> failures [(clause, msg)], verdict"""
+    infos = infos or _named_infos(vec)
+    ents = [(i.file_size, i.compress_size, i.is_dir()) for i in infos]
+    exp = ref_is_bomb(ents, lim)
+    got, err = _decide(infos, lim)
+    if got is None:
+        return [("raises", f"named entries {vec} limits {lim}: {err}")], None
+    if got != exp:
+        shown = [(i.orig_filename, i.filename, "dir" if i.is_dir() else "file", i.file_size, i.compress_size) for i in infos]
+        return [("predicate", f"[name spellings] entries (stored name, effective name, kind, file_size, compress_size) {shown} "
+                              f"limits {lim}: rejected={got}, reference says bomb={exp}")], got
+    return [], got
+
+
+def names_mem_part(arg):
+    k, n, tier = arg
+    lims = [dict(zip(LIMIT_LATTICE, vals)) for vals in itertools.product(*LIMIT_LATTICE.values())]
+    blocks = [([(t, fs, cs) for t in NAME_TAGS for fs, cs in NAME_SIZES[tier]], 2)]
+    if tier != "quick":
+        blocks.append(([(t, fs, cs) for t in NAME_TAGS_3 for fs, cs in NAME_SIZES_3], 3))
+    ev = 0
+    fails = []
+    outs = {}
+    idx = 0
+    for alpha, maxlen in blocks:
+        for L in range(1 if maxlen == 2 else 3, maxlen + 1):
+            for vec in itertools.product(alpha, repeat=L):
+                idx += 1
+                if idx % n != k:
+                    continue
+                infos = _named_infos(vec)
+                kinds = "+".join(sorted({NAME_KIND[t] for t, _, _ in vec}))
+                for lim in lims:
+                    ev += 1
+                    fl, got = run_named(vec, lim, infos)
+                    key = f"{kinds}:{'raise' if got is None else 'reject' if got else 'accept'}"
+                    outs[key] = outs.get(key, 0) + 1
+                    if fl and len(fails) < 300:
+                        fails += [(c, "predicate", {"named_entries": [list(v) for v in vec], "limits": lim}, m) for c, m in fl]
+    return {"ev": ev, "fails": fails, "outs": outs, "samples": []}
+
+
+NAME_PROFILES = {"quick": ("benign", "honest-zeros", "zerocomp", "single+1"),
+                 "thorough": ("benign", "honest-zeros", "zerocomp", "single+1", "entryratio-1", "entryratio+0", "entryratio+1")}
+ALIAS_SUFFIXES = {"nul-slash": b"\0/", "nul": b"\0", "nul-tail-slash": b"\0x/"}
+
+
+def _profile_fields(profile):
+    G1 = 1024 ** 3
+    if profile == "benign":
+        return {"data": b"x" * 8, "method": 0}
+    if profile == "honest-zeros":
+        return {"data": b"\0" * (1 << 20), "method": 8}
+    if profile == "zerocomp":
+        return {"data": b"x" * 8, "method": 0, "file_size": 1000, "compress_size": 0}
+    if profile == "single+1":
+        return {"data": b"x" * 8, "method": 0, "file_size": G1 + 1, "compress_size": (G1 + 1) // 400 + 1}
+    if profile.startswith("entryratio"):
+        return {"data": b"x" * 8, "method": 0, "file_size": 500 * 1000 + int(profile[len("entryratio"):]), "compress_size": 1000}
+    raise ValueError(profile)
+
+
+def _aliased(members, suffix):
+    """the same members, every name stored as name + suffix (the suffix starts with NUL: the effective name is unchanged)"""
+    return [dict({k: v for k, v in m.items() if k != "name"}, name_bytes=m["name"].encode("utf-8") + suffix,
+                 flag_bits=0 if m["name"].isascii() else 0x800) for m in members]
+
+
+def name_variants(fmt, tier, only=None):
+    """Yield (label, bytes): 'name:<spelling>:<profile>' = minimal document + one extra member; 'alias:<suffix>[:zeros]' = the
+    document's own members re-stored under alias spellings [+ an honest high-ratio member under the same alias]."""
+    from verif.gen import zipforge
+    base = _members(minimal(fmt))
+    for tag in NAME_TAGS:
+        for prof in NAME_PROFILES["thorough" if only else tier]:
+            label = f"name:{tag}:{prof}"
+            if only is None or only == label:
+                yield label, zipforge.zipforge(list(base) + [dict(NAME_FIELDS[tag], **_profile_fields(prof))])
+    for stag, sfx in ALIAS_SUFFIXES.items():
+        label = f"alias:{stag}"
+        if only is None or only == label:
+            yield label, zipforge.zipforge(_aliased(base, sfx))
+        label = f"alias:{stag}:zeros"
+        if only is None or only == label:
+            yield label, zipforge.zipforge(_aliased(base + [{"name": "extra/zeros.bin", "data": b"\0" * (1 << 20), "method": 8}], sfx))
+
+
 def reexec(fmt, case):
     if "history" in case:
         with _Monitor() as mon:
@@ -921,6 +1124,8 @@ def reexec(fmt, case):
         return run_uhistory([tuple(x) for x in case["uhistory"]], case["carrier"])[0]
     if "limits_zip" in case:
         return run_limit_zip(fmt, case["limits_zip"], case["entry"])[0]
+    if "named_entries" in case:
+        return run_named([tuple(v) for v in case["named_entries"]], case["limits"])[0]
     if fmt == "predicate":
         from sharepoint2text.parsing.exceptions import ExtractionZipBombError
         from sharepoint2text.parsing.extractors.util.zip_bomb import ZipBombLimits, validate_zipfile
@@ -978,6 +1183,11 @@ def shrinks(case):
         e = case["entries"]
         for i in range(len(e)):
             yield {"entries": e[:i] + e[i + 1:], "limits": case["limits"]}
+    if "named_entries" in case:
+        e = case["named_entries"]
+        if len(e) > 1:
+            for i in range(len(e)):
+                yield {"named_entries": e[:i] + e[i + 1:], "limits": case["limits"]}
 
 
 def embeds(small, big):
@@ -993,12 +1203,24 @@ def embeds(small, big):
             return False
         it = iter(big["entries"])
         return all(any(a == b for b in it) for a in small["entries"])
+    if "named_entries" in small:
+        if "named_entries" not in big or small["limits"] != big["limits"]:
+            return False
+        it = iter(big["named_entries"])
+        return all(any(list(a) == list(b) for b in it) for a in small["named_entries"])
     return small == big
 
 
 def fingerprint_view(case):
     if "entries" in case:
         return {"entries": case["entries"]}
+    if "named_entries" in case:
+        # one shape per vector of (spelling, sizes): the limit setting is not part of the shape
+        return {"named_entries": case["named_entries"]}
+    v = case.get("variant") if isinstance(case, dict) else None
+    if isinstance(v, str) and "pos" not in case and v.split(":")[0] in ("name", "alias"):
+        # one shape per name spelling: the size profile of the extra member is not part of the shape
+        return {"name_spelling": v.split(":")[1], "family": v.split(":")[0]}
     if "limits_zip" in case:
         # one shape per (base container, clause family): the limit value and the -1/0/+1 offset are not part of the shape
         return {"limits_zip": case["limits_zip"].split(":")[0].rstrip("+-01")}
@@ -1017,14 +1239,18 @@ def run(ctx):
                    hard_timeout=1800)
     r6 = P.run_all("verif.props.C11", "limits_mem_part", [(k, n, ctx.tier) for k in range(n)], n=ctx.ncpu, hard_timeout=1800)
     r7 = P.run_all("verif.props.C11", "limits_zip_part", [(b, ctx.tier) for b in LIMIT_ZIP_BASES], n=ctx.ncpu, hard_timeout=1800)
+    name_infos()                          # aborts if the running zipfile disagrees with the NAME_SPELLINGS table
+    r8 = P.run_all("verif.props.C11", "names_mem_part", [(k, ctx.ncpu, ctx.tier) for k in range(ctx.ncpu)], n=ctx.ncpu,
+                   hard_timeout=1800)
     ev = 0
     fails = []
     outs = {}
     samples = []
     herr = []
-    parts = {"predicate": 0, "container": 0, "ordering": 0, "history": 0, "history-util": 0, "limits-mem": 0, "limits-zip": 0}
+    parts = {"predicate": 0, "container": 0, "ordering": 0, "history": 0, "history-util": 0, "limits-mem": 0, "limits-zip": 0,
+             "names-mem": 0}
     for name, res in (("predicate", r1), ("container", r2), ("ordering", r3), ("history", r4), ("history-util", r5),
-                      ("limits-mem", r6), ("limits-zip", r7)):
+                      ("limits-mem", r6), ("limits-zip", r7), ("names-mem", r8)):
         for st, r, _ in res:
             if st != "done":
                 herr.append(f"{name} task failed: {st}: {str(r)[-600:]}")
@@ -1058,13 +1284,23 @@ def run(ctx):
                    "validate_zip_bytesio} under caller-supplied limits: forged member at L-1/0/+1 byte of the per-entry / total ratio limit "
                    f"L in {list(ZIP_RATIO_LIMITS)}, the document's own max entry ratio / total ratio bracketed by the neighbouring quarter steps, "
                    "ZIP64 member at single-size limit 2**53+1 -1/0/+1; "
+                   f"(f) member name spellings ({len(NAME_SPELLINGS)}: plain file / dir, backslash, NUL + '/' / nothing / tail, 'dir/' + NUL + "
+                   "name, '/' alone, empty, CP437 / UTF-8 names, unicode-path extra field valid / stale, directory attribute bits on a file "
+                   "name, file attributes on a dir name; directory <=> the EFFECTIVE name zipfile hands out ends in '/'): (f1) validate_zipfile on "
+                   f"real ZipInfo objects, every vector of <= 2 entries over spellings x {len(NAME_SIZES[ctx.tier])} sizes x 32 limit settings"
+                   + ("" if ctx.tier == "quick" else f" + every vector of 3 entries over {len(NAME_TAGS_3)} spellings x {len(NAME_SIZES_3)} sizes")
+                   + f"; (f2) 9 extractors x one extra member per spelling x profiles {list(NAME_PROFILES[ctx.tier])} + the document's own "
+                   f"members re-stored under alias suffixes {sorted(ALIAS_SUFFIXES)} (with / without an honest high-ratio member); (f3) the "
+                   "aliased documents through open_zipfile / validate_zip_bytesio with limits on the quarter steps around their own ratios; "
                    "distinct_nontrivial = distinct (part, variant, outcome) classes",
            "per_part": parts,
            "bounds": {"history_length": 2 if ctx.tier == "quick" else 3, "carriers": CARRIERS, "history_variants": HIST_VARIANTS,
                       "helper_steps": len(UDOCS) * len(UENTRIES), "helper_limits": sorted(ULIMITS),
                       "ratio_limits": [str(x) for x in RATIO_LIMITS[ctx.tier]], "ratio_vector_length": 2 if ctx.tier == "quick" else 3,
                       "limit_lattices": ["ratio", "mixed", "degenerate", "huge"], "zip_ratio_limits": list(ZIP_RATIO_LIMITS),
-                      "zip_limit_bases": LIMIT_ZIP_BASES, "zip_entry_points": list(ZIP_ENTRY_POINTS)},
+                      "zip_limit_bases": LIMIT_ZIP_BASES, "zip_entry_points": list(ZIP_ENTRY_POINTS),
+                      "name_spellings": NAME_TAGS, "name_sizes": [list(x) for x in NAME_SIZES[ctx.tier]], "name_vector_length": 2 if ctx.tier == "quick" else 3,
+                      "name_profiles": list(NAME_PROFILES[ctx.tier]), "alias_suffixes": sorted(ALIAS_SUFFIXES)},
            "outcomes": dict(sorted(outs.items())[:160]), "samples": samples[:6], "exhaustive": True}
     return {"coverage": cov, "failures": fails, "harness_errors": herr,
             "assumptions": ["whether directory entries count towards the entry-count limit is not settled by the statement: count-boundary "
